@@ -114,7 +114,7 @@ def stmt(s, inc_names, indent=""):
     if k == "insert":
         return [indent + f'\tinsert_file "{insert_name(s)}"']
     if k == "repeat":
-        out = [indent + f"\t.repeat {s['n']:o} {{"]
+        out = [indent + (f"\t.repeat {s['c']} {{" if "c" in s else f"\t.repeat {s['n']:o} {{")]
         for b in s["body"]:
             out += stmt(b, inc_names, indent + "  ")
         out.append(indent + "\t}")
